@@ -9,7 +9,7 @@ if R != "/repo":
     ENV["VERIF_REPO"] = R
     ENV["VERIF_OUT"] = os.environ.get("SEED_OUT", "/tmp/seedout")
     os.makedirs(ENV["VERIF_OUT"], exist_ok=True)
-EXTRA = {"C10b": ["C09"], "C04b": ["C05"], "C05a": ["C04"], "C13b": ["C01"], "C08a": ["C02"], "C13d": ["C08"], "C13c": ["C08"], "C01d": ["C14"], "C07e": ["C08"], "C09e": ["C11"], "C08g": ["C13"], "C11g": ["C08"]}
+EXTRA = {"C10b": ["C09"], "C04b": ["C05"], "C05a": ["C04"], "C13b": ["C01"], "C08a": ["C02"], "C13d": ["C08"], "C13c": ["C08"], "C01d": ["C14"], "C07e": ["C08"], "C09e": ["C11"], "C08g": ["C13"], "C11g": ["C08"], "C07i": ["C12"], "C10i": ["C11", "C09"], "C13i": ["C08"]}
 ids = sys.argv[1:] or sorted(os.path.basename(os.path.dirname(p)) for p in glob.glob(V + "/seeded/*/meta.json"))
 def sh(*a, **k): return subprocess.run(*a, **k)
 for sid in ids:
